@@ -636,6 +636,12 @@ impl Debugger {
                             BrkptType::LinkerMapFn => {
                                 // ignore possible signals and watchpoints
                                 while self.step_over_breakpoint()?.is_some() {}
+                                // breakpoints of an unloaded library wait until the library
+                                // is loaded again
+                                self.breakpoints.park_unmapped_breakpoints(&self.debugee);
+                                print_warns!(
+                                    self.breakpoints.enable_all_breakpoints(&self.debugee)
+                                );
                                 print_warns!(self.refresh_deferred());
                                 continue;
                             }
